@@ -43,6 +43,7 @@ from .expressions import parse_positional_and_keyword_arguments
 from .expressions import parse_primitive
 from .expressions import parse_string_or_identifier
 from .expressions import parse_string_or_path
+from .expressions import string_or_identifier_str
 from .filters.array import concat
 from .filters.array import first
 from .filters.array import join
@@ -213,6 +214,7 @@ __all__ = (
     "parse_positional_and_keyword_arguments",
     "parse_primitive",
     "parse_string_or_identifier",
+    "string_or_identifier_str",
     "Path",
     "plus",
     "PositionalArgument",
